@@ -940,3 +940,54 @@ Proof.
     rewrite (enf_rel o s sv Hh Hr _ ps c Hg), Ew.
     destruct (tfail_cases s ps (v_root (sv_view sv))) as [E|E]; rewrite E; reflexivity.
 Qed.
+
+(* ---- ReadFile ------------------------------------------------------------------------------------------------------ *)
+Lemma firstn_all_more (A : Type) (l : list A) n : length l <= n -> firstn n l = l.
+Proof. intros H. apply firstn_all2. exact H. Qed.
+
+Theorem orefa_step_read_file (o : ofs) (s : fsys) (sv : sview) (ps : list str) (c : str) :
+  ohyps s sv -> orel o s sv -> gcs (ps ++ [c]) -> length (ps ++ [c]) < WALK_FUEL ->
+  proj_res Linux (o_read_file o (abs_path (ps ++ [c]))) = go_read_file s sv (abs_path (ps ++ [c])).
+Proof.
+  intros Hh Hr Hg Hl. pose proof Hg as Hg'. apply gcs_snoc_inv in Hg'. destruct Hg' as [Hps Hc].
+  pose proof (oh_admin _ _ Hh) as Hadm.
+  unfold o_read_file, go_read_file, o_open_file, k_open.
+  change (to_open_mode 0) with OpenRead. change (decode_flags 0) with (OF 0 false false false false). cbv iota beta zeta.
+  change (has OpenRead OpenCreateExcl) with false. change (has OpenRead OpenCreate) with false.
+  change (has OpenRead OpenWrite) with false. change (has OpenRead OpenTruncate) with false.
+  change (acc_mask 0 false) with 4%N. change (negb (N.eqb (N.land 4 2) 0)) with false. cbn [negb andb orb].
+  rewrite (oabs_abs o s sv Hr _ Hg), (or_os _ _ _ Hr).
+  rewrite (klookup_down s sv Hh true ps c Hg Hl), (tdown_spec (f_heap s) ps (v_root (sv_view sv)) c).
+  rewrite (@abs_path_rpath (ps ++ [c])) by (destruct ps; discriminate).
+  rewrite (split_abs_rpath ps c) by (apply comp_ok_nosl; apply good_comp_ok'; exact Hc).
+  destruct (resolve4 o s sv Hh Hr ps c Hg) as [p px i x Ew Hp Hnp Hd El Hx Hnx|p px Ew Hp Hnp Hd El Hx|p px Ew Hp Hnp Hd Hx|Ew Hp Hx];
+    rewrite Hx, Ew.
+  - rewrite Hd, El. pose proof Hx as Hx'. apply ofind_some in Hx'. destruct Hx' as [_ Hoi].
+    destruct (get (f_heap s) i) as [[chi mi|d k id mi|t mi]|] eqn:Egi; cbn [nrel] in Hnx.
+    + destruct Hnx as (y & Ey & Hxd & Hxc & Hxm). inversion Ey; subst y. rewrite Hxd.
+      assert (Hdi : node_is_dir (f_heap s) i = true) by (rewrite node_is_dir_get, Egi; reflexivity).
+      rewrite (kperm_dir_admin (f_heap s) _ Hadm i 4 Hdi). cbn [negb]. rewrite Egi.
+      unfold of_read, o_prologue. cbn [new_handle hd_name hd_node].
+      destruct (rpath (ps ++ [c])) eqn:Ek; [exfalso; revert Ek; apply rpath_snoc_not_nil|].
+      rewrite Hoi, Hxd. unfold owin. rewrite (or_os _ _ _ Hr). cbn [ostype_eqb].
+      assert (Hz : Z.leb (Z.of_nat (length (on_ch x)) + 512) 0 = false) by (apply Z.leb_gt; lia).
+      rewrite Hz. reflexivity.
+    + destruct Hnx as (y & Ey & Hxd & Hxc & Hxk & Hxm & Hdata). inversion Ey; subst y. rewrite Hxd.
+      assert (Hkp : kperm (f_heap s) i 4 (v_user (sv_view sv)) = true) by (unfold kperm; rewrite Egi, Hadm; reflexivity).
+      rewrite Hkp. cbn [negb andb]. rewrite Egi.
+      unfold of_read, o_prologue. cbn [new_handle hd_name hd_node hd_mode hd_at o_with_heap o_with o_heap].
+      destruct (rpath (ps ++ [c])) eqn:Ek; [exfalso; revert Ek; apply rpath_snoc_not_nil|].
+      rewrite (oget_oupd _ _ _ _ _ Hoi), Nat.eqb_refl. unfold on_dir in *. cbn [on_with_data on_meta on_data]. rewrite Hxd.
+      assert (Hz : Z.leb (Z.of_nat (length (on_data x)) + 512) 0 = false) by (apply Z.leb_gt; lia).
+      rewrite Hz. change (has OpenRead OpenRead) with true. cbn [negb Z.to_nat skipn].
+      rewrite firstn_all_more by lia.
+      rewrite (Hdata (file_named s sv Hh p c i d k id mi El Egi)).
+      destruct (Z.eqb_spec (Z.of_nat (length d)) 0) as [E|_]; [|reflexivity].
+      destruct d; [reflexivity|cbn [length] in E; lia].
+    + exfalso. exact (oh_nosym _ _ Hh i t mi Egi).
+    + discriminate.
+  - rewrite Hp, Hd, El, (nrel_dir s sv Hh px p Hnp), Hd. reflexivity.
+  - rewrite Hp, Hd, (nrel_dir s sv Hh px p Hnp), Hd. reflexivity.
+  - rewrite Hp, (enf_rel o s sv Hh Hr _ ps c Hg), Ew.
+    destruct (tfail_cases s ps (v_root (sv_view sv))) as [E|E]; rewrite E; reflexivity.
+Qed.
